@@ -10,7 +10,9 @@
 // dominates, the channel request protocol, the 'updated' notice is consumed once.
 //
 // Concurrent part (search only, no model case): 2 and 4 goroutines in tight set/check/unset loops
-// on disjoint bits, and SetLast against Set, on one shared word under GOMAXPROCS >= 4.  Each
+// on disjoint bits, and SetLast against Set, on one shared word under GOMAXPROCS >= 4; and the channel
+// request protocol: SetChannel on one goroutine against a goroutine polling ChannelCanStop (an off
+// request must be answered by exactly one "stop", an on request by none; key "channel-protocol-race").  Each
 // goroutine is the only writer of its bits (or of the group half), so with atomic
 // read-modify-write mutators every check must succeed; a failed check is a lost update
 // (oracle failure, key "lost-update").
@@ -35,6 +37,7 @@ type S = c2.VerifC13State
 
 var out *vh.Out
 var stressOps int64
+var protoRounds int64
 
 // modelWitness is what tools/propcfg/c13.py wrote into <out>/witness.json before this run: the
 // atomic shapes atomics2v translated from the c2/state.go under check and, evaluated inside Coq on
@@ -517,6 +520,218 @@ func doStress(c stressCfg) {
 	}
 }
 
+// ---------------------------------------------------------------- channel protocol race (search)
+
+// protoCfg: one SetChannel(Request) call on one goroutine against a goroutine polling
+// ChannelCanStop, round after round from the word Start (a running channel, no pending notice).
+type protoCfg struct {
+	Name    string `json:"name"`
+	Start   uint32 `json:"initial_word"`
+	Request bool   `json:"request"`
+	Stops   int    `json:"expected_stop_answers"` // polls answering "stop" per round: 1 for an off request, 0 for an on request
+	Millis  int    `json:"millis"`
+}
+
+type protoBad struct {
+	Round     int64  `json:"round"`
+	Accepted  bool   `json:"setchannel_answer"`
+	Stops     uint32 `json:"stop_answers"`
+	Polls     uint32 `json:"polls"`
+	Final     uint32 `json:"final_word"`
+	NowStop   bool   `json:"channelcanstop_now"`
+	Value     bool   `json:"final_channel_value"`
+	Updated   bool   `json:"final_channel_updated"`
+	StillChan bool   `json:"final_channel"`
+}
+
+// protoRace returns the number of rounds played and the first round whose outcome breaks the protocol.
+func protoRace(c protoCfg) (rounds int64, bad *protoBad) {
+	var (
+		s                      S
+		round, stop            uint32
+		filed, polled          uint32
+		stops, polls, accepted uint32
+		wg                     sync.WaitGroup
+	)
+	wg.Add(2)
+	go func() { // the user thread: files the request
+		defer wg.Done()
+		var seen, spin uint32
+		for atomic.LoadUint32(&stop) == 0 {
+			r := atomic.LoadUint32(&round)
+			if r == seen {
+				runtime.Gosched()
+				continue
+			}
+			seen = r
+			for i := uint32(0); i < r%7; i++ { // vary the alignment of the two threads
+				atomic.AddUint32(&spin, 1)
+			}
+			if s.SetChannel(c.Request) {
+				atomic.StoreUint32(&accepted, 1)
+			}
+			atomic.StoreUint32(&filed, r)
+		}
+	}()
+	go func() { // the channel thread: polls
+		defer wg.Done()
+		var seen uint32
+		for atomic.LoadUint32(&stop) == 0 {
+			r := atomic.LoadUint32(&round)
+			if r == seen {
+				runtime.Gosched()
+				continue
+			}
+			seen = r
+			var n, st uint32
+			for atomic.LoadUint32(&filed) != r {
+				if s.ChannelCanStop() {
+					st++
+				}
+				n++
+			}
+			if s.ChannelCanStop() { // SetChannel has returned: one more poll
+				st++
+			}
+			atomic.StoreUint32(&stops, st)
+			atomic.StoreUint32(&polls, n+1)
+			atomic.StoreUint32(&polled, r)
+		}
+	}()
+	deadline := time.Now().Add(time.Duration(c.Millis) * time.Millisecond)
+	for r := uint32(1); r < 1<<31; r++ {
+		if r&255 == 0 && time.Now().After(deadline) {
+			break
+		}
+		atomic.StoreUint32((*uint32)(&s), c.Start)
+		atomic.StoreUint32(&accepted, 0)
+		atomic.StoreUint32(&round, r)
+		for atomic.LoadUint32(&polled) != r {
+		}
+		rounds++
+		w := word(&s)
+		acc, st := atomic.LoadUint32(&accepted) == 1, atomic.LoadUint32(&stops)
+		wantValue := c.Request
+		if !acc || int(st) != c.Stops || (w&bits[bChannelValue] != 0) != wantValue || w&bits[bChannelUpdated] != 0 || w&bits[bChannel] == 0 {
+			x := S(w)
+			bad = &protoBad{Round: rounds, Accepted: acc, Stops: st, Polls: atomic.LoadUint32(&polls), Final: w, NowStop: x.ChannelCanStop(),
+				Value: w&bits[bChannelValue] != 0, Updated: w&bits[bChannelUpdated] != 0, StillChan: w&bits[bChannel] != 0}
+			break
+		}
+	}
+	atomic.StoreUint32(&stop, 1)
+	wg.Wait()
+	return
+}
+
+func doProto(c protoCfg) {
+	rounds, bad := protoRace(c)
+	out.Count("stress-protocol-"+c.Name, fmt.Sprintf("%x-%t", c.Start, c.Request), true)
+	protoRounds += rounds
+	out.Extra("protocol_rounds", protoRounds)
+	if bad == nil {
+		return
+	}
+	what := fmt.Sprintf("channel protocol broken under concurrency: SetChannel(%t) against a polling ChannelCanStop from word 0x%x: ", c.Request, c.Start)
+	switch {
+	case !bad.Accepted:
+		what += "SetChannel refused a request that differs from the standing one"
+	case c.Stops == 1 && bad.Stops == 0:
+		what += fmt.Sprintf("the request was accepted but no ChannelCanStop call (nor one more after SetChannel returned) answered stop; final word 0x%x, ChannelCanStop now = %t: the notice was consumed against the old request, the request is lost", bad.Final, bad.NowStop)
+	case c.Stops == 0 && bad.Stops > 0:
+		what += fmt.Sprintf("a request to turn the channel ON made ChannelCanStop answer stop (final word 0x%x)", bad.Final)
+	case int(bad.Stops) != c.Stops:
+		what += fmt.Sprintf("%d polls answered stop, expected %d (the notice was not consumed exactly once)", bad.Stops, c.Stops)
+	default:
+		what += fmt.Sprintf("final word 0x%x does not hold the request with its notice consumed", bad.Final)
+	}
+	out.Fail(what, "channel-protocol-race", map[string]interface{}{"protocol": c, "outcome": bad, "rounds_played": rounds,
+		"gomaxprocs": runtime.GOMAXPROCS(0), "model_witness": modelWitness,
+		"goroutine_programs": []string{
+			fmt.Sprintf("goroutine 0 (every round, word reset to 0x%x): SetChannel(%t)", c.Start, c.Request),
+			"goroutine 1 (every round): loop { ChannelCanStop() } until goroutine 0 has returned; then ChannelCanStop() once more; counts the calls answering true"},
+		"expected": fmt.Sprintf("SetChannel answers true; exactly %d poll(s) answer stop; final word has ChannelValue=%t, ChannelUpdated clear, Channel set", c.Stops, c.Request)})
+}
+
+// ---------------------------------------------------------------- two goroutines, the SAME bit (search)
+
+type sameCfg struct {
+	Name   string `json:"name"`
+	Bit    uint32 `json:"bit"`
+	Base   uint32 `json:"base_word"` // the bit is clear in it
+	Millis int    `json:"millis"`
+}
+
+// sameBitRace: odd rounds both goroutines call Set(bit) on base, even rounds both call Unset(bit)
+// on base|bit; whatever the interleaving the word must be base|bit resp. base afterwards.
+func sameBitRace(c sameCfg) (rounds int64, badRound int64, got, want uint32) {
+	var (
+		s           S
+		round, stop uint32
+		done        [2]uint32
+		wg          sync.WaitGroup
+	)
+	for g := 0; g < 2; g++ {
+		wg.Add(1)
+		go func(g int) {
+			defer wg.Done()
+			var seen uint32
+			for atomic.LoadUint32(&stop) == 0 {
+				r := atomic.LoadUint32(&round)
+				if r == seen {
+					runtime.Gosched()
+					continue
+				}
+				seen = r
+				if r&1 == 1 {
+					s.Set(c.Bit)
+				} else {
+					s.Unset(c.Bit)
+				}
+				atomic.StoreUint32(&done[g], r)
+			}
+		}(g)
+	}
+	deadline := time.Now().Add(time.Duration(c.Millis) * time.Millisecond)
+	for r := uint32(1); r < 1<<31; r++ {
+		if r&255 == 0 && time.Now().After(deadline) {
+			break
+		}
+		start, w := c.Base, c.Base|c.Bit
+		if r&1 == 0 {
+			start, w = c.Base|c.Bit, c.Base
+		}
+		atomic.StoreUint32((*uint32)(&s), start)
+		atomic.StoreUint32(&round, r)
+		for atomic.LoadUint32(&done[0]) != r || atomic.LoadUint32(&done[1]) != r {
+		}
+		rounds++
+		if x := word(&s); x != w {
+			badRound, got, want = rounds, x, w
+			break
+		}
+	}
+	atomic.StoreUint32(&stop, 1)
+	wg.Wait()
+	return
+}
+
+func doSame(c sameCfg) {
+	rounds, bad, got, want := sameBitRace(c)
+	out.Count("stress-same-bit", fmt.Sprintf("%x-%x", c.Bit, c.Base), true)
+	if bad == 0 {
+		return
+	}
+	op := "Set"
+	if bad&1 == 0 {
+		op = "Unset"
+	}
+	out.Fail(fmt.Sprintf("two goroutines calling %s(0x%x) at the same time left the word 0x%x instead of 0x%x (another flag or the group half changed, or the flag itself is wrong)", op, c.Bit, got, want),
+		"same-bit-race", map[string]interface{}{"same_bit": c, "round": bad, "rounds_played": rounds, "observed_word": got, "expected_word": want,
+			"gomaxprocs": runtime.GOMAXPROCS(0), "model_witness": modelWitness,
+			"goroutine_programs": []string{"goroutine 0 and goroutine 1, odd rounds (word reset to base_word): Set(bit); even rounds (word reset to base_word|bit): Unset(bit)"}})
+}
+
 func pickBits(rng *vh.Rand, n int) []uint32 {
 	p := make([]int, 16)
 	for i := range p {
@@ -541,7 +756,7 @@ func main() {
 		"sequential: EVERY one of the 2^16 flag states (group half boundary/hashed) through every method of the real c2.state: the Go-side oracle on every row (class row), and for the model "+
 			"one CBlock case per 64 consecutive flag states carrying the digest of all their results (packed results of the 21 bool-valued calls, Last, the words left by the 4 mutating protocol calls, "+
 			"by Set/Unset with each of the 16 single-bit arguments and by SetLast); single CRow cases with free group values (boundary grid + random); "+
-			"random multi-bit mutator calls (CMut) and random call sequences (CSeq); concurrent (oracle only): tight set/check/unset loops of 2 and 4 goroutines on disjoint bits and SetLast against Set on one shared word; "+
+			"random multi-bit mutator calls (CMut) and random call sequences (CSeq); concurrent (oracle only): tight set/check/unset loops of 2 and 4 goroutines on disjoint bits and SetLast against Set on one shared word, and SetChannel on one goroutine against a goroutine polling ChannelCanStop; "+
 			"distinct = distinct Coq case term, non-trivial = some flag set / non-zero argument / sequence longer than one call")
 	rng := vh.NewRand(fl.Seed)
 	thorough := fl.Tier == "thorough"
@@ -562,10 +777,27 @@ func main() {
 		if b, err := os.ReadFile(fl.Replay); err == nil {
 			var rp struct {
 				Input struct {
-					Stress *stressCfg `json:"stress"`
+					Stress   *stressCfg `json:"stress"`
+					Same     *sameCfg   `json:"same_bit"`
+					Protocol *protoCfg  `json:"protocol"`
 				} `json:"input"`
 			}
-			if json.Unmarshal(b, &rp) == nil && rp.Input.Stress != nil {
+			if json.Unmarshal(b, &rp) == nil && rp.Input.Protocol != nil {
+				c := *rp.Input.Protocol
+				c.Name = "replay"
+				if c.Millis < 1000 {
+					c.Millis = 1000
+				}
+				doProto(c)
+			}
+			if rp.Input.Same != nil {
+				c := *rp.Input.Same
+				if c.Millis < 1000 {
+					c.Millis = 1000
+				}
+				doSame(c)
+			}
+			if rp.Input.Stress != nil {
 				c := *rp.Input.Stress
 				c.Name = "replay"
 				if c.Millis < 1000 {
@@ -589,6 +821,28 @@ func main() {
 		doStress(stressCfg{Name: "4-disjoint-bits", Setters: four, Millis: ms, Init: uint32(rng.U64())})
 		doStress(stressCfg{Name: "setlast-vs-set", Setters: pickBits(rng, 1), GroupGoer: true, Millis: ms, Init: uint32(rng.U64())})
 		doStress(stressCfg{Name: "setlast-vs-3-setters", Setters: pickBits(rng, 3), GroupGoer: true, Millis: ms, Init: uint32(rng.U64())})
+	}
+	// 1a. two goroutines setting / clearing the SAME flag
+	sms := 100
+	if thorough {
+		sms = 2000
+	}
+	for r := 0; r < rounds; r++ {
+		b := pickBits(rng, 1)[0]
+		doSame(sameCfg{Name: "same-bit", Bit: b, Base: uint32(rng.U64()) &^ b, Millis: sms})
+		doSame(sameCfg{Name: "same-bit-below-set-neighbour", Bit: bits[bChannelValue], Base: uint32(rng.U64())&^bits[bChannelValue] | bits[bChannelUpdated], Millis: sms})
+	}
+	// 1b. the channel request protocol: SetChannel on one goroutine, ChannelCanStop polling on another
+	pms := 150
+	if thorough {
+		pms = 3000
+	}
+	for r := 0; r < rounds; r++ {
+		other := uint32(rng.U64()) &^ 0xFFFF // the group half and the flags outside the protocol are free
+		free := uint32(rng.U64()) & (bits[bCanRecv] | bits[bSeen] | bits[bMoving] | bits[bReplacing])
+		doProto(protoCfg{Name: "off-request", Start: other | free | bits[bReady] | bits[bChannel] | bits[bChannelValue], Request: false, Stops: 1, Millis: pms})
+		doProto(protoCfg{Name: "on-request", Start: other | free | bits[bReady] | bits[bChannel], Request: true, Stops: 0, Millis: pms})
+		doProto(protoCfg{Name: "off-request-proxy-channel", Start: other | free | bits[bReady] | bits[bChannel] | bits[bChannelProxy], Request: false, Stops: 1, Millis: pms})
 	}
 
 	// 2. the complete flag table: every one of the 2^16 flag states, in blocks of 64 consecutive states
